@@ -178,8 +178,32 @@ Definition reset_params (init : param -> param) (l : named) : named :=
   map (fun kp => (fst kp, if Nat.leb 2 (length (p_size (snd kp))) then init (snd kp) else snd kp)) l.
 Definition recreate_bert_pinned (init : param -> param) (old fresh : named) : named :=
   preserve (reset_params init old) fresh.
+(* ---- train / eval mode (since repair 1205c28) ---------------------------------------------------
+   The state of a module is its named entries (parameters and buffers) together with its training
+   flag. EvolvableModule.__setattr__: a sub-module that REPLACES an existing one inherits the flag of
+   the one it replaces (whatever flag the freshly constructed one had); clone(): clone.train(self.training). *)
+Record mstate := { st_named : named; st_training : bool }.
+Definition recreate_state (shrink : bool) (old fresh : mstate) : option mstate :=
+  match recreate shrink (st_named old) (st_named fresh) with
+  | Some r => Some {| st_named := r; st_training := st_training old |}
+  | None => None
+  end.
+Definition clone_state (self fresh : mstate) : mstate :=
+  {| st_named := clone (st_named self) (st_named fresh); st_training := st_training self |}.
+(* the behaviour before 1205c28: the flag of the freshly constructed module (always training) survives *)
+Definition recreate_state_pinned (old fresh : mstate) : mstate :=
+  {| st_named := preserve (st_named old) (st_named fresh); st_training := st_training fresh |}.
+
+(* every axis of the old size fits into the new size (a growing mutation) *)
+Fixpoint size_le (a b : list nat) : bool :=
+  match a, b with
+  | [], [] => true
+  | x :: a', y :: b' => Nat.leb x y && size_le a' b'
+  | _, _ => false
+  end.
 End Tensors.
 
 Arguments tensor : clear implicits.
 Arguments param : clear implicits.
 Arguments named : clear implicits.
+Arguments mstate : clear implicits.
